@@ -374,8 +374,9 @@ def blocks_shards(ctx):
     q = ctx.quick
     S = []
     for lo, hi in ((1, 4), (5, 5)) + (() if q else ((6, 6),)):
-        S.append(("tw%d" % lo, "MC_TwoWay", sub(K_TW, Alpha={0, 1}, MinN=lo, MaxN=hi, MaxH=9 if q else 10, Emit=False), TW_INV, 4))
-    S.append(("tw3", "MC_TwoWay", sub(K_TW, MODK=2, Alpha={0, 1, 2}, MinN=1, MaxN=3 if q else 4, MaxH=6 if q else 7, Emit=False), TW_INV, 4))
+        S.append(("tw%d" % lo, "MC_TwoWay", sub(K_TW, Alpha={0, 1}, MinN=lo, MaxN=hi, MaxH=9 if q else 10, Emit=True), TW_INV, 4))
+    S.append(("tw3", "MC_TwoWay", sub(K_TW, MODK=2, Alpha={0, 1, 2}, MinN=1, MaxN=3 if q else 4, MaxH=6 if q else 7, Emit=True), TW_INV, 4))
+    S.append(("tw3m", "MC_TwoWay", sub(K_TW, MODK=3, Alpha={0, 1, 2}, MinN=2, MaxN=3, MaxH=6 if q else 7, Emit=True), TW_INV, 4))
     S.append(("b1", "MC_SubBlocks1", sub(["HASHBITS", "MASKBITS"], Alpha={0, 1}, MaxN=5, MaxH=9 if q else 10, Emit=False), B1_INV, 4))
     S.append(("b1h", "MC_SubBlocks1", dict(HASHBITS=2, MASKBITS=3, Alpha={0, 1, 2}, MaxN=3, MaxH=6, Emit=False), B1_INV, 3))
     return S
@@ -394,6 +395,8 @@ def pp_shards(ctx, emit=True, small=False):
 
 
 # "tail_none" (cur == end after the main loop) is unreachable: min_haystack_len > VB, so the `if cur < end` of the code is always taken
+TW_ARMS = {"f_exit", "f_pre_off", "f_byteset_skip", "f_s_right_mismatch", "f_s_match", "f_s_period_shift", "f_l_right_mismatch", "f_l_match", "f_l_shift",
+           "r_exit", "r_byteset_skip", "r_s_left_mismatch", "r_s_match", "r_s_period_shift", "r_l_left_mismatch", "r_l_match", "r_l_shift"}
 PP_ARMS = {"panic", "loop_hit", "loop_miss", "tail_short", "tail_hit", "tail_miss", "p_panic", "p_loop_hit", "p_loop_miss", "p_tail_hit", "p_tail_miss"}
 
 
@@ -405,12 +408,17 @@ def c12(ctx):
     res = run_shards(ctx, bs + ps + os_, timeout=3000)
     vec, n = vec_of(ctx, res, os_, "mm.ndjson")
     pvec, pn = vec_of(ctx, res, ps, "pp.ndjson")
+    tvec, tn = vec_of(ctx, res, [b for b in bs if b[1] == "MC_TwoWay"], "tw.ndjson")
     C.collect_arms(ctx, "PackedPair", pvec)
     C.require_arms(ctx, "PackedPair", PP_ARMS)
-    ctx.traces += n + pn
+    C.collect_arms(ctx, "TwoWay", tvec)
+    C.require_arms(ctx, "TwoWay", TW_ARMS)
+    ctx.traces += n + pn + tn
     ctx.nontrivial += sum(1 for v in C.read_vectors(vec) if v["find"] >= 0)
     mm_replay(ctx, binp, vec, "blocks", {"result", "panic"}, 5 if ctx.quick else 10, forces=("avx2",))
     replay_cmd(ctx, binp, "replay-pp", pvec, "pp", {"result", "panic"})
+    # Two-Way: exact replay incl. conformance of preprocessing (Debug output), preprocessing steps and search steps with the L-model
+    replay_cmd(ctx, binp, "replay-tw", tvec, "tw", {"result", "panic"})
     lib_traces(ctx, "sub", "find,rfind", "block", 1200 if ctx.quick else 10000, "blocks", forces=("avx2",))
     ctx.evaluations += sum_exec(ctx, ["mm_exec", "pp_scaled_exec", "pp_real_exec", "prefilter_exec"])
     return C.finish(ctx, "model_checking",
@@ -636,11 +644,15 @@ def iter_traces(ctx, count, ops_filter=None, forces=("avx2", "sse2", "fallback")
 def c13(ctx):
     q = ctx.quick
     # design level: the cost-annotated L-models obey an explicit linear bound on every input of the bounded domains
-    tw = [("tw", "MC_TwoWay", sub(K_TW, Alpha={0, 1}, MinN=1, MaxN=5, MaxH=9 if q else 10, Emit=False), TW_INV, 4),
-          ("tw3", "MC_TwoWay", sub(K_TW, MODK=3, Alpha={0, 1, 2}, MinN=1, MaxN=3, MaxH=6 if q else 7, Emit=False), TW_INV, 4)]
+    tw = [("tw", "MC_TwoWay", sub(K_TW, Alpha={0, 1}, MinN=1, MaxN=5, MaxH=9 if q else 10, Emit=True), TW_INV, 4),
+          ("tw3", "MC_TwoWay", sub(K_TW, MODK=3, Alpha={0, 1, 2}, MinN=1, MaxN=3, MaxH=6 if q else 7, Emit=True), TW_INV, 4)]
     mm = memmem_shards(ctx, ["find", "iter"], 5, 7 if q else 9, ranks=(0, 2))
     ps = pp_shards(ctx, emit=False, small=True)
     res = run_shards(ctx, tw + mm + ps, timeout=3000)
+    # the model's cost structure is the code's: the hook's step counters equal the L-model's `ticks` on every small behaviour (conformance)
+    tvec, tn = vec_of(ctx, res, tw, "tw.ndjson")
+    ctx.traces += tn
+    replay_cmd(ctx, C.build_harness(), "replay-tw", tvec, "tw", {"panic"})
     # code level: deterministic step counters on adversarial families at geometrically growing sizes
     binp = C.build_harness(profile="release")
     nrec = 0
